@@ -144,6 +144,9 @@ func (m *ErrorMessage) UnmarshalBinary(data []byte) error {
 	if length > uint64(len(data)-bytesRead) {
 		return fmt.Errorf("data too short for error message")
 	}
+	if length < uint64(len(data)-bytesRead) {
+		return fmt.Errorf("%d unexpected bytes after the error message", uint64(len(data)-bytesRead)-length)
+	}
 
 	m.Error = string(data[bytesRead : bytesRead+int(length)])
 
@@ -279,6 +282,10 @@ func (m *PeerInfo) UnmarshalBinary(data []byte) error {
 		return err
 	}
 
+	if buffer.Len() != 0 {
+		return fmt.Errorf("%d unexpected bytes after the app name", buffer.Len())
+	}
+
 	m.AppName = string(nameBuffer)
 	m.AppVersion = appVersion
 	m.JamVersion = jamVersion
@@ -293,9 +300,22 @@ func (m *ImportBlock) MarshalBinary() ([]byte, error) {
 	return encoder.Encode((*types.Block)(m))
 }
 
-func (m *ImportBlock) UnmarshalBinary(data []byte) error {
+// decodeExact decodes v from data and rejects bytes left over after it: a frame
+// payload is exactly one encoded message.
+func decodeExact(data []byte, v interface{}) error {
 	decoder := types.NewDecoder()
-	return decoder.Decode(data, (*types.Block)(m))
+	n, err := decoder.DecodeWithConsumed(data, v)
+	if err != nil {
+		return err
+	}
+	if n != len(data) {
+		return fmt.Errorf("%d unexpected bytes after the message", len(data)-n)
+	}
+	return nil
+}
+
+func (m *ImportBlock) UnmarshalBinary(data []byte) error {
+	return decodeExact(data, (*types.Block)(m))
 }
 
 func (m *SetState) Encode(e *types.Encoder) error {
@@ -336,8 +356,7 @@ func (m *SetState) MarshalBinary() ([]byte, error) {
 }
 
 func (m *SetState) UnmarshalBinary(data []byte) error {
-	decoder := types.NewDecoder()
-	return decoder.Decode(data, m)
+	return decodeExact(data, m)
 }
 
 func (m *GetState) MarshalBinary() ([]byte, error) {
@@ -346,8 +365,7 @@ func (m *GetState) MarshalBinary() ([]byte, error) {
 }
 
 func (m *GetState) UnmarshalBinary(data []byte) error {
-	decoder := types.NewDecoder()
-	return decoder.Decode(data, (*types.HeaderHash)(m))
+	return decodeExact(data, (*types.HeaderHash)(m))
 }
 
 func (m *State) MarshalBinary() ([]byte, error) {
@@ -356,8 +374,7 @@ func (m *State) MarshalBinary() ([]byte, error) {
 }
 
 func (m *State) UnmarshalBinary(data []byte) error {
-	decoder := types.NewDecoder()
-	return decoder.Decode(data, (*types.StateKeyVals)(m))
+	return decodeExact(data, (*types.StateKeyVals)(m))
 }
 
 func (m *StateRoot) MarshalBinary() ([]byte, error) {
@@ -366,8 +383,7 @@ func (m *StateRoot) MarshalBinary() ([]byte, error) {
 }
 
 func (m *StateRoot) UnmarshalBinary(data []byte) error {
-	decoder := types.NewDecoder()
-	return decoder.Decode(data, (*types.StateRoot)(m))
+	return decodeExact(data, (*types.StateRoot)(m))
 }
 
 func (m *Message) ReadFrom(reader io.Reader) (int64, error) {
